@@ -147,7 +147,7 @@ func runBatch(o *vh.Out, work string, scs []*Scenario, ident map[string]string) 
 		}
 		o.Count(fmt.Sprintf("events_%s", bucket(strings.Count(impl, "|")+1)))
 		o.Case(line, impl, strings.Count(impl, "|") >= 2)
-		if res.CompileErr[sc.Name] == "" && res.BuildErr == "" && res.GoErr[sc.Name] == "" {
+		if res.CompileErr[sc.Name] == "" && res.BuildErr == "" && res.GoErr[sc.Name] == "" && !sc.NoStruct {
 			// structural tie: what the compiler emitted for this scenario's functions
 			var names []string
 			for _, fn := range sc.Prog.Funcs {
